@@ -394,7 +394,10 @@ def gen_cases(tier, seed, search=False):
         # eventfd2 instantiation and then run, like every case, in all three transports
         from . import sched
         erng = random.Random(seed * 7919 + 909)
-        bases = [(c[0], instantiate(c[2], ""), c[2]) for c in corpus_cases()]
+        # (a corpus scenario with a burst of thousands of posts is no base for a systematic sweep: every one of its schedules costs as much
+        # as the burst itself; it still runs, as it is, with the corpus)
+        bases = [(c[0], instantiate(c[2], ""), c[2]) for c in corpus_cases()
+                 if not any(re.search(r"rawpost r\d+ \d{3,}|childpost r\d+ \d{3,}|steplimit=9", l) for l in c[2])]
         k = 0
         while len(bases) < 40 and k < 2000:
             k += 1
